@@ -162,7 +162,20 @@ func (r *Result) Finish() int {
 	if len(r.Internal) > 0 {
 		ev["internal_errors"] = r.Internal
 	}
-	b, _ := json.MarshalIndent(ev, "", " ")
+	b, merr := json.MarshalIndent(ev, "", " ")
+	if merr != nil {
+		// never write an unreadable evidence file: fall back to a textual rendering of the samples
+		var ss []any
+		for _, s := range r.Samples {
+			ss = append(ss, fmt.Sprint(s))
+		}
+		cov["samples"] = ss
+		b, merr = json.MarshalIndent(ev, "", " ")
+		if merr != nil {
+			fmt.Printf("INTERNAL cannot encode evidence: %v\n", merr)
+			return 2
+		}
+	}
 	os.MkdirAll(filepath.Join(verifDir, "evidence"), 0o755)
 	if err := os.WriteFile(filepath.Join(verifDir, "evidence", r.ID+".json"), b, 0o644); err != nil {
 		fmt.Printf("INTERNAL cannot write evidence: %v\n", err)
